@@ -31,6 +31,32 @@ func (p *Program) asciiGuard(fn *ssa.Function, v ssa.Value, at ssa.Instruction) 
 			}
 		}
 	}
+	// the same test made by a library call with a predicate function: behind
+	// `strings.IndexFunc(v, notASCII) < 0` every rune of v passed the predicate
+	if ep := p.elemPredicateCall(fn, func(x ssa.Value) bool { return tb.Term(x).Key() == vKey }); ep != nil && strings.HasSuffix(calleeName(&ep.Call.Call), "IndexFunc") {
+		within := true
+		pts := append([]int64{126, 127, 128, 129, 0xff, 0x100, 0x212a}, ep.Points()...)
+		for _, c := range pts {
+			carries, decided := ep.Carries(c)
+			if !decided || (carries && c > 127) {
+				within = false
+				break
+			}
+		}
+		if within {
+			callKey := tb.Term(ep.Call).Key()
+			_, none := findFact(tb.FactsAt(at.Block()), func(a Atom) bool {
+				if a.Kind != "cmp" || a.X == nil || a.X.Key() != callKey {
+					return false
+				}
+				k, isK := intConst(a.Y)
+				return isK && (a.Op == "<=" && k == -1 || a.Op == "==" && k == -1 || a.Op == "<" && k == 0)
+			})
+			if none {
+				return &RangeLoop{Kind: "predicate-call", Over: v}
+			}
+		}
+	}
 	for _, l := range rangeLoops(fn) {
 		if tb.Term(l.Over).Key() != vKey {
 			continue
